@@ -36,13 +36,13 @@ func bfnName(recv, name string) string {
 }
 
 type benv struct {
-	x     *xl
-	item  string
-	ok    bool
-	vars  map[string]string
-	fresh int
-	sites int
-	known map[string]bool // translated functions (by Coq name)
+	x        *xl
+	item     string
+	ok       bool
+	vars     map[string]string
+	fresh    int
+	sites    int
+	known    map[string]bool // translated functions (by Coq name)
 	mutators map[string]bool // those that return their receiver's final value
 	// methods of a struct whose byte-slice / integer fields are threaded as state (the client)
 	recvName string            // receiver identifier, "" when not a state method
@@ -51,6 +51,13 @@ type benv struct {
 	extern   map[string]bex    // external calls (selector text -> term), e.g. c.sc.Scan()
 	loopCont func() string     // inside `for { }`: what `continue` / falling off the body yields
 	stateFns map[string]string // translated state methods of the receiver: name -> parameters to pass before the state
+	// the emulator's methods (emufn.go)
+	skipCalls map[string]bool   // call statements without effect on the modelled state (mutex operations)
+	portWrite string            // text of the port's write method, e.g. "e.port.Write"; the frames written are the state field "port!"
+	errVars   map[string]string // package-level error values -> their codes
+	fieldMut  map[string]string // "field.Method" -> translated function returning (results, receiver's final value)
+	pkgFuncs  string            // name of the imported package whose translated functions may be called as pkg.F(...)
+	ctxDone   string            // text of the channel a `select` may poll, e.g. "ctx.Done()"
 }
 
 func (e *benv) bad(n ast.Node, why string) string {
@@ -231,6 +238,9 @@ func (e *benv) expr(n ast.Expr) bex {
 		}
 		if g, ok := e.vars[v.Name]; ok {
 			return bex{g, true}
+		}
+		if c, ok := e.errVars[v.Name]; ok {
+			return bex{c, true}
 		}
 		return bex{e.bad(n, "unknown identifier "+v.Name), false}
 	case *ast.SelectorExpr:
@@ -488,6 +498,24 @@ func (e *benv) expr(n ast.Expr) bex {
 				}
 			}
 		}
+		if sel, ok := v.Fun.(*ast.SelectorExpr); ok && e.pkgFuncs != "" {
+			// pkg.F(args) for a translated function of the imported library
+			if pid, ok := sel.X.(*ast.Ident); ok && pid.Name == e.pkgFuncs {
+				fn := bfnName("", sel.Sel.Name)
+				if f, ok := e.x.info.Uses[sel.Sel].(*types.Func); ok && e.known[fn] {
+					sig := f.Type().(*types.Signature)
+					var ops []bex
+					for i, a := range v.Args {
+						b := e.expr(a)
+						if b.t == "NIL" && i < sig.Params().Len() && bkind(sig.Params().At(i).Type()) == "bytes" {
+							b = bex{"[]", true}
+						}
+						ops = append(ops, b)
+					}
+					return e.flatten(e.combine(ops, func(s []string) string { return "(" + fn + " " + strings.Join(s, " ") + ")" }))
+				}
+			}
+		}
 		if sel, ok := v.Fun.(*ast.SelectorExpr); ok {
 			full := ""
 			if obj := e.x.info.Uses[sel.Sel]; obj != nil {
@@ -694,10 +722,84 @@ func (e *benv) block(stmts []ast.Stmt, ret func([]ast.Expr) string, cont func() 
 			return e.bad(s, "unsupported variable type")
 		}
 		return bindv(vs.Names[0].Name, bex{zero, true})
+	case *ast.DeferStmt:
+		if e.skipCalls[exprText(s.Call)] {
+			return rest()
+		}
+		return e.bad(s, "unsupported defer")
+	case *ast.SelectStmt:
+		// select { case <-ctx.Done(): A; default: B }
+		if e.ctxDone == "" || len(s.Body.List) != 2 {
+			return e.bad(s, "unsupported select")
+		}
+		var onDone, onDefault []ast.Stmt
+		seen := 0
+		for _, cl := range s.Body.List {
+			cc := cl.(*ast.CommClause)
+			if cc.Comm == nil {
+				onDefault = cc.Body
+				seen |= 1
+				continue
+			}
+			if es, ok := cc.Comm.(*ast.ExprStmt); ok {
+				if u, ok := es.X.(*ast.UnaryExpr); ok && u.Op == token.ARROW && exprText(u.X) == e.ctxDone {
+					onDone = cc.Body
+					seen |= 2
+				}
+			}
+		}
+		if seen != 3 {
+			return e.bad(s, "unsupported select")
+		}
+		return "(if ctx_done then " + e.block(onDone, ret, rest) + " else " + e.block(onDefault, ret, rest) + ")"
+	case *ast.SwitchStmt:
+		// switch tag { case c1, c2: A; ...; default: D }: constant cases, no fallthrough
+		if s.Init != nil || s.Tag == nil {
+			return e.bad(s, "unsupported switch")
+		}
+		tag := e.expr(s.Tag)
+		tg := e.tmp()
+		chain := ""
+		closeP := ""
+		var deflt []ast.Stmt
+		for _, cl := range s.Body.List {
+			cc := cl.(*ast.CaseClause)
+			for _, st := range cc.Body {
+				if br, ok := st.(*ast.BranchStmt); ok && br.Tok != token.CONTINUE {
+					return e.bad(br, "unsupported branch in a switch")
+				}
+			}
+			if cc.List == nil {
+				deflt = cc.Body
+				continue
+			}
+			var conds []string
+			for _, c := range cc.List {
+				tv, ok := e.x.info.Types[c]
+				if !ok || tv.Value == nil {
+					return e.bad(c, "non-constant case")
+				}
+				lit, ok := zlit(tv.Value)
+				if !ok {
+					return e.bad(c, "non-integer case")
+				}
+				conds = append(conds, "("+tg+" =? "+lit+")")
+			}
+			chain += "(if " + strings.Join(conds, " || ") + " then " + e.block(cc.Body, ret, rest) + " else "
+			closeP += ")"
+		}
+		chain += e.block(deflt, ret, rest) + closeP
+		if tag.pure {
+			return "(let " + tg + " := " + tag.t + " in " + chain + ")"
+		}
+		return "(do " + tg + " <- " + tag.t + "; " + chain + ")"
 	case *ast.ExprStmt:
 		call, ok := s.X.(*ast.CallExpr)
 		if !ok {
 			return e.bad(s, "unsupported expression statement")
+		}
+		if e.skipCalls[exprText(call)] {
+			return rest()
 		}
 		// (*o)[i].DataIdentifier.SetUint16(x) on an element of a local / receiver configuration
 		if sel, ok := call.Fun.(*ast.SelectorExpr); ok && sel.Sel.Name == "SetUint16" && len(call.Args) == 1 {
@@ -797,6 +899,72 @@ func (e *benv) block(stmts []ast.Stmt, ret func([]ast.Expr) string, cont func() 
 		}
 		return e.bad(s, "unsupported call statement")
 	case *ast.AssignStmt:
+		if len(s.Lhs) == 2 && len(s.Rhs) == 1 && s.Tok == token.DEFINE && e.portWrite != "" {
+			// _, err := e.port.Write(x): the frame joins the port's output unless the write fails (pw_err)
+			if call, ok := s.Rhs[0].(*ast.CallExpr); ok && exprText(call.Fun) == e.portWrite && len(call.Args) == 1 {
+				n0, ok0 := s.Lhs[0].(*ast.Ident)
+				errId, ok1 := s.Lhs[1].(*ast.Ident)
+				if !ok0 || !ok1 || n0.Name != "_" {
+					return e.bad(s, "unsupported use of the port's write result")
+				}
+				arg := e.expr(call.Args[0])
+				key := e.recvName + ".port!"
+				cur := e.vars[key]
+				t := e.tmp()
+				savedP := e.vars[key]
+				savedE, hadE := e.vars[errId.Name]
+				e.vars[key] = "v_port" + t
+				e.vars[errId.Name] = "v_" + errId.Name
+				bind := "let '(v_port" + t + ", v_" + errId.Name + ") := g_port_write " + cur + " " + t + " pw_err in " + rest()
+				e.vars[key] = savedP
+				if hadE {
+					e.vars[errId.Name] = savedE
+				} else {
+					delete(e.vars, errId.Name)
+				}
+				if arg.pure {
+					return "(let " + t + " := " + arg.t + " in " + bind + ")"
+				}
+				return "(do " + t + " <- " + arg.t + "; " + bind + ")"
+			}
+		}
+		if len(s.Lhs) == 1 && len(s.Rhs) == 1 && s.Tok == token.DEFINE && e.fieldMut != nil {
+			// err := e.field.M(args) for a translated method that rewrites its receiver: the field is rebound
+			if call, ok := s.Rhs[0].(*ast.CallExpr); ok {
+				if sel, ok := call.Fun.(*ast.SelectorExpr); ok {
+					if fsel, ok := sel.X.(*ast.SelectorExpr); ok {
+						if rid, ok := fsel.X.(*ast.Ident); ok && rid.Name == e.recvName {
+							if fn, ok := e.fieldMut[fsel.Sel.Name+"."+sel.Sel.Name]; ok {
+								id, okI := s.Lhs[0].(*ast.Ident)
+								key := e.recvName + "." + fsel.Sel.Name
+								cur, okF := e.vars[key]
+								if !okI || !okF {
+									return e.bad(s, "unsupported receiver-rewriting call")
+								}
+								ops := []bex{{cur, true}}
+								for _, a := range call.Args {
+									ops = append(ops, e.expr(a))
+								}
+								c := e.flatten(e.combine(ops, func(a []string) string { return "(" + fn + " " + strings.Join(a, " ") + ")" }))
+								t := e.tmp()
+								savedF := e.vars[key]
+								savedX, hadX := e.vars[id.Name]
+								e.vars[key] = "v_" + fsel.Sel.Name + t
+								e.vars[id.Name] = "v_" + id.Name
+								out := "(do " + t + " <- " + c.t + "; let '(v_" + id.Name + ", v_" + fsel.Sel.Name + t + ") := " + t + " in " + rest() + ")"
+								e.vars[key] = savedF
+								if hadX {
+									e.vars[id.Name] = savedX
+								} else {
+									delete(e.vars, id.Name)
+								}
+								return out
+							}
+						}
+					}
+				}
+			}
+		}
 		if len(s.Lhs) == 2 && len(s.Rhs) == 1 && s.Tok == token.DEFINE {
 			// a, b := f(...) for a translated function returning a pair
 			a, okA := s.Lhs[0].(*ast.Ident)
